@@ -659,6 +659,127 @@ fn sweep_histories(rep: &mut Report, alphabet: &'static [&'static str], tag: &st
     rep.set(tag, json!({"sequences": total, "max_length": n, "alphabet": k, "statements_run": steps, "statements_accepted": ok}));
 }
 
+// ------------------------------------------------------------------------------------------------
+// (f) single-token mutations of the documented example corpus: every `@example` snippet of the
+// standard library, with every token deleted, duplicated, swapped with its successor, and replaced
+// by every token of a structural alphabet, in a session with every module loaded
+
+const MUTANT_TOKENS: [&str; 18] = ["0", "(", ")", "[", "]", "\"", "-", "^", "!", "→", "²", "m", "=", ",", "|>", "{", "}", "true"];
+
+fn lex_crude(s: &str) -> Vec<String> {
+    let cs: Vec<char> = s.chars().collect();
+    let mut out = vec![];
+    let mut i = 0;
+    while i < cs.len() {
+        let c = cs[i];
+        if c.is_whitespace() {
+            i += 1;
+        } else if c.is_alphanumeric() || c == '_' {
+            let mut j = i;
+            while j < cs.len() && (cs[j].is_alphanumeric() || cs[j] == '_' || cs[j] == '.') {
+                j += 1;
+            }
+            out.push(cs[i..j].iter().collect());
+            i = j;
+        } else if c == '"' {
+            let mut j = i + 1;
+            while j < cs.len() && cs[j] != '"' {
+                if cs[j] == '\\' {
+                    j += 1;
+                }
+                j += 1;
+            }
+            out.push(cs[i..(j + 1).min(cs.len())].iter().collect());
+            i = j + 1;
+        } else {
+            out.push(c.to_string());
+            i += 1;
+        }
+    }
+    out
+}
+
+fn sweep_corpus_mutations(rep: &mut Report) {
+    let base = all_ctx();
+    let mut corpus: Vec<String> = vec![];
+    for f in base.functions() {
+        for (code, _) in &f.examples {
+            if !code.contains("args()") && !code.contains("random") && !code.contains("now()") {
+                corpus.push(code.to_string());
+            }
+        }
+    }
+    corpus.sort();
+    corpus.dedup();
+    let mut mutants: Vec<String> = vec![];
+    for ex in &corpus {
+        let toks = lex_crude(ex);
+        for i in 0..toks.len() {
+            let join = |v: &Vec<String>| v.join(" ");
+            let mut d = toks.clone();
+            d.remove(i);
+            mutants.push(join(&d));
+            let mut d = toks.clone();
+            d.insert(i, toks[i].clone());
+            mutants.push(join(&d));
+            if i + 1 < toks.len() {
+                let mut d = toks.clone();
+                d.swap(i, i + 1);
+                mutants.push(join(&d));
+            }
+            for t in MUTANT_TOKENS {
+                let mut d = toks.clone();
+                d[i] = t.to_string();
+                mutants.push(join(&d));
+            }
+        }
+    }
+    mutants.sort();
+    mutants.dedup();
+    let n = mutants.len();
+    let chunk = 200usize;
+    let jobs = n.div_ceil(chunk);
+    let outs: Vec<(u64, Vec<(String, String, String)>, Vec<(String, f64)>)> = par_map(jobs, || (), |_, j| {
+        let mut ok = 0u64;
+        let mut panics = vec![];
+        let mut slow = vec![];
+        for code in &mutants[j * chunk..((j + 1) * chunk).min(n)] {
+            let mut ctx = base.clone();
+            let t0 = Instant::now();
+            match watch::watched("C08", "code", code, || exercise(&mut ctx, code)) {
+                Ok("ok") => ok += 1,
+                Ok(_) => {}
+                Err(p) => {
+                    if panics.len() < 20 {
+                        panics.push((p.site(), p.message.clone(), code.clone()));
+                    }
+                }
+            }
+            let dt = t0.elapsed().as_secs_f64();
+            if dt > 10.0 {
+                slow.push((code.clone(), dt));
+            }
+        }
+        (ok, panics, slow)
+    });
+    let mut ok = 0u64;
+    for (o, panics, slow) in outs {
+        ok += o;
+        for (site, msg, code) in panics {
+            rep.violation(format!("callsite:{site}"), format!("[example mutation] input {:?} panics: {} at {site}", code, msg.chars().take(200).collect::<String>()), json!({"code": code, "all_modules": true}));
+        }
+        for (code, dt) in slow {
+            rep.violation(format!("slow:{code}"), format!("[example mutation] input {:?} took {dt:.1} s", code), json!({"code": code, "all_modules": true}));
+        }
+    }
+    rep.states += n as u64;
+    rep.transitions += n as u64;
+    rep.evaluations += n as u64;
+    rep.validated += n as u64;
+    rep.nontrivial_extra += ok;
+    rep.set("example_mutations", json!({"examples": corpus.len(), "mutants": n, "accepted": ok, "replacement_tokens": MUTANT_TOKENS.len()}));
+}
+
 pub fn check(rep: &mut Report) {
     let t_start = Instant::now();
     // (a)
@@ -686,6 +807,9 @@ pub fn check(rep: &mut Report) {
         sweep_sep(rep, 4, &CHARS[..56], false, "chars", "");
     }
     eprintln!("[C08] token and character sweeps done at {:.1}s", t_start.elapsed().as_secs_f64());
+    // (f)
+    sweep_corpus_mutations(rep);
+    eprintln!("[C08] example mutations done at {:.1}s", t_start.elapsed().as_secs_f64());
     // (d)
     sweep_redefinitions(rep);
     eprintln!("[C08] redefinition histories done at {:.1}s", t_start.elapsed().as_secs_f64());
@@ -757,7 +881,7 @@ pub fn check(rep: &mut Report) {
     rep.set("extreme_cases", json!(cases.len()));
     rep.set("extreme_cases_handled_gracefully", json!(fine));
     rep.set("extreme_cases_crashing", json!(bad));
-    rep.rule = "(a) every token string of length <= L over an alphabet with one spelling of every token kind (53 tokens; prelude session: 36-token sub-alphabet at the top length), each interpreted in a fresh clone with the result echoed or the diagnostic rendered; (e) every character string of length <= 3 over a 76-character alphabet with one representative of every tokenizer character class (all superscript/subscript shapes, Unicode operator spellings, quotes, escapes, control and zero-width characters; thorough: length 4 over 56 of them); (b) every template x extreme value/repetition count, each in its own child process with an 8 s (quick) / 20 s (thorough) limit and a 6 GiB address-space limit; (c) every standard-library function x every argument tuple from per-type edge alphabets (numbers incl. NaN/inf and dimensionful values, ASCII/multi-byte/empty strings, lists, booleans, date-times, function values), in child processes; (d) every history of <= 4 (thorough 5) statements over an 18-statement alphabet that defines one name as functions of different arity, a variable, a unit, a struct and a function value and uses it in every call shape, on a session with core::lists, core::strings and units::si, run statement by statement and as one input, and likewise over a 12-statement alphabet of values of every kind, functions and variables capturing `ans` / `_`, and uses of them; non-trivial = accepted token strings + extreme cases + functions swept + accepted history statements".into();
+    rep.rule = "(a) every token string of length <= L over an alphabet with one spelling of every token kind (53 tokens; prelude session: 36-token sub-alphabet at the top length), each interpreted in a fresh clone with the result echoed or the diagnostic rendered; (e) every character string of length <= 3 over a 76-character alphabet with one representative of every tokenizer character class (all superscript/subscript shapes, Unicode operator spellings, quotes, escapes, control and zero-width characters; thorough: length 4 over 56 of them); (f) every single-token mutation (deletion, duplication, swap with the successor, replacement by each of 18 structural tokens) of every documented @example snippet, in a session with every module loaded; (b) every template x extreme value/repetition count, each in its own child process with an 8 s (quick) / 20 s (thorough) limit and a 6 GiB address-space limit; (c) every standard-library function x every argument tuple from per-type edge alphabets (numbers incl. NaN/inf and dimensionful values, ASCII/multi-byte/empty strings, lists, booleans, date-times, function values), in child processes; (d) every history of <= 4 (thorough 5) statements over an 18-statement alphabet that defines one name as functions of different arity, a variable, a unit, a struct and a function value and uses it in every call shape, on a session with core::lists, core::strings and units::si, run statement by statement and as one input, and likewise over a 12-statement alphabet of values of every kind, functions and variables capturing `ans` / `_`, and uses of them; non-trivial = accepted token strings + extreme cases + functions swept + accepted history statements".into();
     rep.assumptions = vec![
         "the harness builds numbat with debug assertions and overflow checks (a 'checked build')".into(),
         "random byte soup is not in this family; tokenizer states needing longer contexts than L tokens are only reached through the templates".into(),
@@ -828,6 +952,20 @@ pub fn replay(case: &J) -> i32 {
         }
         println!("no violation on this tree");
         return 0;
+    }
+    if case["all_modules"].as_bool().unwrap_or(false) {
+        let code = case["code"].as_str().unwrap_or("");
+        let mut ctx = all_ctx();
+        return match exercise(&mut ctx, code) {
+            Ok(s) => {
+                println!("{s}: no violation on this tree");
+                0
+            }
+            Err(p) => {
+                println!("VIOLATION reproduced: {} at {}", p.message, p.location);
+                1
+            }
+        };
     }
     let code = case["code"].as_str().unwrap_or("");
     let mut ctx = if case["prelude"].as_bool().unwrap_or(true) { prelude_ctx() } else { Context::new_without_importer() };
